@@ -82,3 +82,19 @@
 ;; spec specArgOK (v Val) -> Bool
 ; a resolved function argument: JSON data or a reference to a well-formed expression
 (define-fun specArgOK ((v Val)) Bool (ite ((_ is VExpRef) v) (wfNode (vref v)) (specJSONVal v)))
+
+;; spec specTypeMatch (t Str) (arg Val) -> Bool
+; does a resolved argument satisfy one declared JMESPath parameter type? "any" means any JSON
+; value - not an expression reference; "array" is any slice kind; array[number]/array[string]
+; require every element to be of that type (the empty array satisfies both)
+(define-fun specTypeMatch ((t Str) (arg Val)) Bool
+  (or (and (= t {{str:number}}) ((_ is VNum) arg))
+      (and (= t {{str:string}}) ((_ is VStr) arg))
+      (and (= t {{str:array}}) (= (kindOf arg) 23))
+      (and (= t {{str:object}}) ((_ is VObj) arg))
+      (and (= t {{str:array[number]}}) ((_ is VArr) arg)
+           (forall ((i Int)) (! (=> (and (<= 0 i) (< i (vlen arg))) ((_ is VNum) (select (varr arg) i))) :pattern ((select (varr arg) i)))))
+      (and (= t {{str:array[string]}}) ((_ is VArr) arg)
+           (forall ((i Int)) (! (=> (and (<= 0 i) (< i (vlen arg))) ((_ is VStr) (select (varr arg) i))) :pattern ((select (varr arg) i)))))
+      (and (= t {{str:expref}}) ((_ is VExpRef) arg))
+      (and (= t {{str:any}}) (not ((_ is VExpRef) arg)))))
